@@ -12,8 +12,8 @@ from ..core import fmt, fmt_list, parse_rats, frac, err_kind, close, exact, floa
 
 ID = "C14"
 THREADS = True       # part of the cases run concurrently in threads of one interpreter (the schedule dimension)
-MODULES = ["TWV.Properties.C14", "TWV.Tie.Vector"]
-TRANSLATORS = ["t3_vector"]
+MODULES = ["TWV.Properties.C14", "TWV.Tie.Vector", "TWV.Tie.ProcessFns", "TWV.Tie.WeaverStep"]
+TRANSLATORS = ["t3_vector", "t10_process", "t9_weaver"]
 RULE = ("random series of 2..40 points; trend with callables from a polynomial family (degree <= 2, dyadic coefficients; the "
         "callable records its arguments, which are compared exactly with x_i or x_i/range) through process.trend / "
         "linear_trend / Weaver.trend, normalised or not, a second trend on top (additivity), the zero trend; "
